@@ -136,19 +136,9 @@ def rule_install_publishes(ctx, p, cfg, rid="T3"):
             r.require(any(x[0] == "call" and x[1] == "SharedLogger::new" or (x[0] == "call" and x[1] in p.fns and x[1] != ml.path and "config::runtime::Config" in " ".join(p.fns[x[1]].locals[1:2])) for x in walk(v)),
                       "store-of-new-snapshot:%s" % c.fn.path, fn=c.fn, site=c.at, detail="stored value %s" % show(v, 5))
 
-def run_cfg(ctx, p, cfg):
-    from rules import c01
-    c01.rule_inheritance_shape(ctx, p, cfg, "T5")   # an implied intermediate logger gates with its parent's threshold, a declared one with its own
-    c01.rule_longest_prefix_walk(ctx, p, cfg, "T6")   # "its effective logger" is the node the walk stops at: the first unknown component ends it
-    c01.rule_add_total(ctx, p, cfg, "T4")
-    c01.rule_ancestors_first(ctx, p, cfg, "T10")   # "reach exactly the appenders routing prescribes": every appender a logger names is resolved and handed to the tree, parents first (C01.R2 re-evaluated)
-    from rules import c15, accessors
-    c15.rule_one_snapshot(ctx, p, cfg, "T7")   # enabled() and log() each decide on one snapshot (C15.A1 re-evaluated)
-    accessors.rule_fidelity(ctx, p, cfg, "T8")   # the thresholds compared are the levels the configuration was given
-    if "config_parsing" in p.meta.get("features", []):
-        from rules import c14
-        c14.rule_raw_to_runtime(ctx, p, cfg, "T9")   # ... also when it came from a file (C14.K7 re-evaluated)   # the predicate and the maximum range over every declared logger only if each is in the tree
-    with ctx.rule("T1", "same predicate", cfg) as r:
+def rule_same_predicate(ctx, p, cfg, rid="T1"):
+    """enabled() and log() look the same node up, with the record's own target, and apply the same threshold test to it"""
+    with ctx.rule(rid, "same predicate", cfg) as r:
         ro = anchors.routing(p)
         le = p.fn(anchors.LOG_ENABLED)
         ret = le.local_expr(0)
@@ -199,6 +189,21 @@ def run_cfg(ctx, p, cfg):
         nf = cmp_nf(pe)
         ok = nf is not None and nf[0] == "Le" and deep_strip(nf[1]) == ("param", 2) and deep_strip(nf[2])[0] == "field" and deep_strip(nf[2])[1] == ("param", 1)
         r.require(ok, "predicate-is-threshold-ge-level", fn=pred, detail="normal form: %s" % (show(("cmp",) + nf) if nf else show(pe)))
+
+
+def run_cfg(ctx, p, cfg):
+    from rules import c01
+    c01.rule_inheritance_shape(ctx, p, cfg, "T5")   # an implied intermediate logger gates with its parent's threshold, a declared one with its own
+    c01.rule_longest_prefix_walk(ctx, p, cfg, "T6")   # "its effective logger" is the node the walk stops at: the first unknown component ends it
+    c01.rule_add_total(ctx, p, cfg, "T4")
+    c01.rule_ancestors_first(ctx, p, cfg, "T10")   # "reach exactly the appenders routing prescribes": every appender a logger names is resolved and handed to the tree, parents first (C01.R2 re-evaluated)
+    from rules import c15, accessors
+    c15.rule_one_snapshot(ctx, p, cfg, "T7")   # enabled() and log() each decide on one snapshot (C15.A1 re-evaluated)
+    accessors.rule_fidelity(ctx, p, cfg, "T8")   # the thresholds compared are the levels the configuration was given
+    if "config_parsing" in p.meta.get("features", []):
+        from rules import c14
+        c14.rule_raw_to_runtime(ctx, p, cfg, "T9")   # ... also when it came from a file (C14.K7 re-evaluated)   # the predicate and the maximum range over every declared logger only if each is in the tree
+    rule_same_predicate(ctx, p, cfg, "T1")
 
     rule_tree_max(ctx, p, cfg, "T2")
 
